@@ -23,24 +23,24 @@ type Violation struct {
 
 type Report struct {
 	mu         sync.Mutex
-	Property   string         `json:"property"`
-	Tier       string         `json:"tier"`
-	Shard      int            `json:"shard"`
-	NShards    int            `json:"nshards"`
-	States     int64          `json:"states"`
-	Trans      int64          `json:"transitions"`
-	Execs      int64          `json:"executions"`
-	Outcomes   map[string]int `json:"outcomes,omitempty"`
+	Property   string           `json:"property"`
+	Tier       string           `json:"tier"`
+	Shard      int              `json:"shard"`
+	NShards    int              `json:"nshards"`
+	States     int64            `json:"states"`
+	Trans      int64            `json:"transitions"`
+	Execs      int64            `json:"executions"`
+	Outcomes   map[string]int   `json:"outcomes,omitempty"`
 	ClauseHits map[string]int64 `json:"clause_hits"`
-	Violations []Violation    `json:"violations"`
-	Samples    []any          `json:"samples"`
-	CapsHit    []string       `json:"caps_hit"`
-	Exhaustive bool           `json:"exhaustive"`
-	Bound      int            `json:"bound_completed"`
-	Extra      map[string]any `json:"extra,omitempty"`
-	Notes      []string       `json:"notes,omitempty"`
-	WallS      float64        `json:"wall_s"`
-	Done       bool           `json:"done"`
+	Violations []Violation      `json:"violations"`
+	Samples    []any            `json:"samples"`
+	CapsHit    []string         `json:"caps_hit"`
+	Exhaustive bool             `json:"exhaustive"`
+	Bound      int              `json:"bound_completed"`
+	Extra      map[string]any   `json:"extra,omitempty"`
+	Notes      []string         `json:"notes,omitempty"`
+	WallS      float64          `json:"wall_s"`
+	Done       bool             `json:"done"`
 	seen       map[string]bool
 	start      time.Time
 	deadline   time.Time
